@@ -26,6 +26,9 @@ TOL = 1e-9
 
 
 # ---------------------------------------------------------------- shadows (installed inside a worker process)
+TOL_FFT = 1e-5
+
+
 class Shadow:
     def __init__(self):
         import numpy as np
@@ -89,7 +92,10 @@ class Shadow:
         d = np.where(both_inf, 0.0, np.abs(a - b))
         scale = np.maximum(1.0, np.maximum(np.abs(np.where(both_inf, 0.0, a)), np.abs(np.where(both_inf, 0.0, b))))
         rel = float(np.max(d / scale)) if d.size else 0.0
-        return (not math.isnan(rel)) and rel <= TOL, rel
+        # from 1000 grid points on the convolution goes through the FFT, whose round-off (C02: about 1e-6 of the row peak)
+        # makes argument order matter at the 1e-8 level: compare those at 1e-5
+        tol = TOL_FFT if (a.ndim and a.shape[-1] >= 1000) else TOL
+        return (not math.isnan(rel)) and rel <= tol, rel
 
     def _hit(self, name, before):
         after = self.orig[name].cache_info()
